@@ -67,12 +67,165 @@ def run(ctx):
     ctx.ob('PITCHCLASS/reduced', fi_, fi_.node, v_ == pitfalls.OK, why_, construct='%s returns a pitch class in 0..11' % q, definite=(v_ == pitfalls.BAD),
            unknown=why_ if v_ == pitfalls.UNKNOWN else None)
   quality_needs_all_degrees(ctx, 'CHORD/quality-needs-all-degrees')
+  event_validator_admits(ctx)
+  chord_labels_below_num_classes(ctx)
   melody(ctx)
   chords(ctx)
   performance(ctx)
   density(ctx)
   drums(ctx)
   velocity(ctx)
+
+
+# (event type, value): events that the performance encodings decode for configurations the library itself uses (pitches 0..127,
+# shifts and durations up to the 1000 steps NotePerformance defaults to, velocity bins 1..127): the event class must accept them
+ADMITTED_EVENTS = [('NOTE_ON', 0), ('NOTE_ON', 127), ('NOTE_OFF', 0), ('NOTE_OFF', 127), ('TIME_SHIFT', 1), ('TIME_SHIFT', 100), ('TIME_SHIFT', 101),
+                   ('TIME_SHIFT', 1000), ('DURATION', 1), ('DURATION', 1000), ('VELOCITY', 1), ('VELOCITY', 127)]
+
+
+def event_validator_admits(ctx, rule='EVENT/validator-admits'):
+  """decode_event builds a PerformanceEvent for every class index; the event class's validator must not refuse an event that lies in
+  the range an encoding was configured with.  The validator is evaluated path by path on ADMITTED_EVENTS."""
+  from sa import pathval, scenario
+  ci = ctx.cls('performance_lib:PerformanceEvent')
+  val = next((m for m in ci.methods.values() if any(d.endswith('.validator') for d in m.decorators)), None)
+  if val is None:
+    ctx.ob(rule, ci, ci.node, True, 'PerformanceEvent has no validator: every event is accepted', construct='PerformanceEvent accepts the decodable events')
+    return
+  consts = {}
+  for st in ci.node.body:
+    if isinstance(st, ast.Assign) and len(st.targets) == 1 and isinstance(st.targets[0], ast.Name) and isinstance(st.value, ast.Constant):
+      consts['PerformanceEvent.' + st.targets[0].id] = st.value
+      consts['self.' + st.targets[0].id] = st.value
+  fd = fold.Folder(ctx.P, ctx.S)
+  try:
+    ps = pathval.paths(val.node.body, effects=True, opaque=True)
+  except pathval.PathError as e:
+    why = 'cannot classify: the validator is not a straight-line block (%s)' % e
+    ctx.ob(rule, val, val.node, False, why, construct='PerformanceEvent accepts the decodable events', unknown=why)
+    return
+  for tname, value in ADMITTED_EVENTS:
+    cons = 'PerformanceEvent(%s, %d) is accepted' % (tname, value)
+    if 'PerformanceEvent.' + tname not in consts:
+      why = 'cannot classify: PerformanceEvent.%s is not a literal class constant' % tname
+      ctx.ob(rule, val, val.node, False, why, construct=cons, unknown=why)
+      continue
+    env = dict(consts)
+    env['self.event_type'] = consts['PerformanceEvent.' + tname]
+    env['self.event_value'] = ast.Constant(value=value)
+    verdict, stuck = None, None
+    for conds, _e, end in ps:
+      taken = True
+      for t, pol in conds:       # in order: a later condition is only evaluated on a path whose earlier ones hold
+        tx = pathval.subst(t, env)
+        for nm in set(n.id for n in ast.walk(tx) if isinstance(n, ast.Name)):
+          if nm in val.module.assigns:        # the module's own constants (pianoroll_lib binds MIN_MIDI_PITCH to another value)
+            try:
+              k = fd.module_const(val.module, nm)
+            except Exception:      # pylint: disable=broad-except
+              continue
+            if isinstance(k, (int, float)) and not isinstance(k, bool):
+              tx = pathval.subst(tx, {nm: ast.Constant(value=k)})
+        v = scenario.fold_numeric(tx, {})
+        if v is None:
+          stuck, taken = norm_text(t), None
+          break
+        if bool(v) != pol:
+          taken = False
+          break
+      if taken is None:
+        break
+      if taken:
+        verdict = end
+        break
+    if verdict is None:
+      why = 'cannot classify: %s cannot be evaluated for %s = %d' % (stuck or 'no path of the validator', tname, value)
+      ctx.ob(rule, val, val.node, False, why, construct=cons, unknown=why)
+    else:
+      ok = verdict != 'raise'
+      ctx.ob(rule, val, val.node, ok, 'accepted' if ok else
+             'the validator refuses PerformanceEvent(%s, %d): an encoding configured with a range that contains it (max_shift_steps / max_duration_steps are constructor arguments, '
+             'not constants of the event class) cannot decode the class index of that event' % (tname, value), construct=cons, definite=True)
+
+
+def _interval(ctx, mi, e, fd):
+  """(lo, hi) of an integer expression built from constants, + and * of non-negative parts, a chord root (0..11) and the position
+  of a member in a module-level literal table - or None."""
+  c = U.const_value(e)
+  if isinstance(c, int) and not isinstance(c, bool):
+    return (c, c)
+  if isinstance(e, (ast.Name, ast.Attribute)):
+    nm = e.id if isinstance(e, ast.Name) else e.attr
+    try:
+      k = fd.module_const(mi, nm) if isinstance(e, ast.Name) else nf.GLOBAL_CONSTS.get(nm)
+    except Exception:      # pylint: disable=broad-except
+      k = None
+    return (k, k) if isinstance(k, int) and not isinstance(k, bool) else None
+  if isinstance(e, ast.Call):
+    d = dotted(e.func) or ''
+    if d.split('.')[-1] in ('chord_symbol_root', 'chord_symbol_bass'):
+      return (0, 11)       # PITCHCLASS/reduced establishes it
+    if isinstance(e.func, ast.Attribute) and e.func.attr == 'index' and isinstance(e.func.value, ast.Name) and e.func.value.id in mi.assigns and len(mi.assigns[e.func.value.id]) == 1:
+      tab = mi.assigns[e.func.value.id][0]
+      if isinstance(tab, (ast.Tuple, ast.List)):
+        return (0, len(tab.elts) - 1)
+    return None
+  if isinstance(e, ast.BinOp) and isinstance(e.op, (ast.Add, ast.Mult)):
+    a, b = _interval(ctx, mi, e.left, fd), _interval(ctx, mi, e.right, fd)
+    if a is None or b is None:
+      return None
+    if isinstance(e.op, ast.Add):
+      return (a[0] + b[0], a[1] + b[1])
+    if a[0] < 0 or b[0] < 0:
+      return None
+    return (a[0] * b[0], a[1] * b[1])
+  return None
+
+
+def chord_labels_below_num_classes(ctx, rule='CHORD/label-below-num-classes'):
+  """encode_event of the two chord one-hot encodings: on every returning path (through one helper of the module, if the method
+  delegates) the largest label that can be returned is smaller than num_classes."""
+  from sa import pathval
+  mi = ctx.P.module('chords_encoder_decoder')
+  fd = fold.Folder(ctx.P, ctx.S)
+  for cname in ('MajorMinorChordOneHotEncoding', 'TriadChordOneHotEncoding'):
+    ci = mi.classes[cname]
+    enc, ncm = ci.methods['encode_event'], ci.methods['num_classes']
+    cons = '%s.encode_event returns labels below num_classes' % cname
+    nret = [s_.value for s_ in ncm.node.body if isinstance(s_, ast.Return) and s_.value is not None]
+    ncl = _interval(ctx, mi, nret[0], fd) if len(nret) == 1 else None
+    rets, why = [], None
+    try:
+      for conds, env, end in pathval.paths(enc.node.body, opaque=True):
+        if end != 'return' or pathval.RETURN not in env:
+          continue
+        r = env[pathval.RETURN]
+        g = mi.functions.get(r.func.id) if isinstance(r, ast.Call) and isinstance(r.func, ast.Name) else None
+        if g is None:
+          rets.append(r)
+          continue
+        params = g.params()
+        sub = dict(zip(params, r.args))
+        for conds2, env2, end2 in pathval.paths(g.node.body, opaque=True):
+          if end2 == 'return' and pathval.RETURN in env2:
+            rets.append(pathval.subst(env2[pathval.RETURN], sub))
+    except pathval.PathError as e:
+      why = 'cannot classify: %s is not a block of assignments, tests and returns (%s)' % (enc.qualname, e)
+    if why is None and (ncl is None or not rets):
+      why = 'cannot classify: num_classes of %s is not a constant expression, or encode_event has no returning path' % cname
+    if why is not None:
+      ctx.ob(rule, enc, enc.node, False, why, construct=cons, unknown=why)
+      continue
+    for r in rets:
+      iv = _interval(ctx, mi, r, fd)
+      if iv is None:
+        why = 'cannot classify: the range of the label %s is not determined' % norm_text(r)[:80]
+        ctx.ob(rule, enc, enc.node, False, why, construct=cons + ' (%s)' % norm_text(r)[:40], unknown=why)
+        continue
+      ok = 0 <= iv[0] and iv[1] < ncl[0]
+      ctx.ob(rule, enc, enc.node, ok, 'label %s lies in [%d, %d], num_classes is %d' % (norm_text(r)[:50], iv[0], iv[1], ncl[0]) if ok else
+             '%s.encode_event can return %s, which ranges over [%d, %d], while num_classes is %d: a chord it accepts gets a label that decode_event and the model do not have' % (
+                 cname, norm_text(r)[:70], iv[0], iv[1], ncl[0]), construct=cons + ' (%s)' % norm_text(r)[:40], definite=True)
 
 
 def _fold_env(ctx, mi, names):
